@@ -1160,6 +1160,10 @@ class Delegate(TraitType):
     ):
         """ Creates a Delegate trait.
         """
+        # The listener pattern (see 'get_delegate_pattern') is derived from the
+        # prefix as given, including a trailing '*'.
+        metadata["_prefix"] = prefix
+
         if prefix == "":
             prefix_type = 0
         elif prefix[-1:] != "*":
@@ -1172,7 +1176,6 @@ class Delegate(TraitType):
                 prefix_type = 3
 
         metadata["_delegate"] = delegate
-        metadata["_prefix"] = prefix
         metadata["_listenable"] = listenable
 
         super().__init__(**metadata)
